@@ -216,12 +216,11 @@ fn ref_wsize(o: &WindowSize, s: &WindowSize, obs_mss: Option<u16>) -> F {
             Some(m) if m > 0 => {
                 if *v as u32 == *n as u32 * m as u32 {
                     F::Exact(0)
-                } else if (*v / m) as u32 == *n as u32 {
-                    F::ZeroOr(P_WSIZE)
                 } else {
                     // a raw window and `mss*N` are comparable once the packet's MSS is known:
-                    // the window is not N times the MSS (not even rounded down), so the field
-                    // differs and costs exactly its penalty
+                    // the window is not N times the MSS -- a window that merely lies between
+                    // N and N+1 times the MSS is no multiple either -- so the field differs and
+                    // costs exactly its penalty
                     F::Exact(P_WSIZE)
                 }
             }
@@ -1369,7 +1368,7 @@ pub fn spec() -> PropSpec {
         assumptions: &[
             "signature TTL `N`: an observation t+d conforms iff t+d = N (hop count d); raw TTLs within 35 hops below N whose estimate differs are ambiguous (0 or +2 tolerated); database TTLs of the forms N+D and N+? are judged only against the identical / same-form value",
             "signature TTL `N-` (p0f: maximum of randomised TTLs): every observation with raw TTL <= N conforms; open finding C12-ttl-bad-form-unmatchable models the library's different answer",
-            "window: same-form comparisons are exact (equal 0, different +2; %a against %b with b dividing a is ambiguous); observed raw value against `mss*N` conforms iff value = N x observed MSS (integer-division near misses are ambiguous); all other cross-form pairs are crash-only",
+            "window: same-form comparisons are exact (equal 0, different +2; %a against %b with b dividing a is ambiguous); observed raw value against `mss*N` conforms iff value = N x observed MSS, anything else costs the window penalty; all other cross-form pairs are crash-only",
             "an absent MSS / window-scale option against a literal 0 in the signature is ambiguous (p0f reads absent as 0)",
             "quirk lists that are permutations of each other are crash-only (p0f compares bit sets, the crate ordered lists)",
             "HTTP header values are compared for equality (the crate's documented error kinds); p0f's substring reading of name=[value] is not judged",
